@@ -43,13 +43,20 @@ def spec_sort(rows, keycols, revs, na_last):
     return sorted(rows, key=functools.cmp_to_key(cmp))
 
 
-def build(keys, nkeys, form):
+VARIANT = [0]      # provenance round-robin counter
+
+
+def build(keys, nkeys, form, variant=None):
     from serif import Table, Vector
     n = len(keys)
     kcols = [(f"k{j}", [k[j] for k in keys]) for j in range(nkeys)]
     pay = [("pos", list(range(n))), ("p", [f"r{i}" for i in range(n)])]
     cols = pay if form == "external" else [pay[0]] + kcols + [pay[1]]
-    t = Table([Vector(list(c), name=nm) for nm, c in cols])
+    if variant is None:
+        t = Table([Vector(list(c), name=nm) for nm, c in cols])
+    else:
+        from mc import provenance
+        _, t = provenance.table_variant(cols, variant)
     if form == "name":
         by = [nm for nm, _ in kcols]
     elif form == "column":
@@ -81,7 +88,9 @@ def check_table(agg, kind, nkeys, form, keys, revs, rev_form, na_last):
     case = {"kind": kind, "nkeys": nkeys, "form": form, "keys": [list(k) for k in keys], "reverse": list(revs),
             "reverse_form": rev_form, "na_last": na_last}
     try:
-        t, by, cols = build(keys, nkeys, form)
+        VARIANT[0] += 1
+        case["variant"] = VARIANT[0]
+        t, by, cols = build(keys, nkeys, form, variant=VARIANT[0])
     except Exception as e:
         agg.violation(V("table.sort_by.build-inputs", "raises-" + type(e).__name__, case))
         return
@@ -176,7 +185,9 @@ def run_unit(unit):
                         agg.evals += 1; agg.transitions += 1; agg.compared += 1
                         py = f"from serif import Vector\nprint(list(Vector({vals!r}).sort_by(reverse={rev}, na_last={na_last})), 'expected', {want!r})"
                         try:
-                            v = Vector(vals, name=name)
+                            VARIANT[0] += 1
+                            from mc import provenance
+                            _, v = provenance.vector_variant(vals, name, VARIANT[0])
                             b = obs(v)
                             res = v.sort_by(reverse=rev, na_last=na_last)
                         except Exception as e:
@@ -332,6 +343,7 @@ def replay(rec):
         hist_one(agg, case["kind"], case["keys"], idx, new, path, rev)
         return set(agg.viol)
     if "reverse_form" in case:
+        VARIANT[0] = int(case.get("variant", 1)) - 1
         check_table(agg, case["kind"], case["nkeys"], case["form"], [tuple(k) for k in case["keys"]], case["reverse"], case["reverse_form"], case["na_last"])
         return set(agg.viol)
     return None
